@@ -1816,17 +1816,18 @@ int32 parseServerHello(ssl_t *ssl, int32 hsLen, unsigned char **cp,
             /* Alerts will already have been set inside */
             return rc;
         }
-# ifdef USE_TLS_1_3
-        if (!NGTD_VER(ssl, v_tls_1_3_any))
-        {
-            rc = performTls13DowngradeCheck(ssl);
-            if (rc < 0)
-            {
-                return rc;
-            }
-        }
-# endif /* USE_TLS_1_3 */
     }
+# ifdef USE_TLS_1_3
+    /* A ServerHello without any extensions is a downgrade, too */
+    if (!NGTD_VER(ssl, v_tls_1_3_any))
+    {
+        rc = performTls13DowngradeCheck(ssl);
+        if (rc < 0)
+        {
+            return rc;
+        }
+    }
+# endif /* USE_TLS_1_3 */
 
 # ifdef USE_OCSP_MUST_STAPLE
     /* Will catch cases where a server does not send any extensions at all */
